@@ -73,9 +73,11 @@ def scratch(seed, wt, props):
         for f in os.listdir(os.path.join(VERIF, "harness", "src")):
             shutil.copy(os.path.join(VERIF, "harness", "src", f), os.path.join(h, "src", f))
     sh("git checkout -- .", cwd=wt)
+    rc, head = sh("git -C /repo rev-parse HEAD")
+    sh(["git", "checkout", "-q", "--detach", head.strip()], cwd=wt)      # the scratch worktree follows /repo's HEAD (fix commits)
     rc, out = sh(["git", "apply", os.path.join(seed, "patch.diff")], cwd=wt)
     if rc != 0:
-        return {"error": "patch does not apply"}
+        return {"error": "patch does not apply: " + out[-200:]}
     env = dict(os.environ, VERIF_REPO=wt, VERIF_HARNESS=h, VERIF_OUT="/tmp/o_" + tag, VERIF_EVIDENCE="/tmp/o_" + tag + "/evidence")
     try:
         return run_checks(props, env)
